@@ -310,7 +310,12 @@ impl<Front: SocketHandler> ConnectionH1<Front> {
         }
 
         let was_main_phase = kawa.is_main_phase();
+        let first_new_block = kawa.blocks.len();
+        let was_in_trailers = kawa.parsing_phase == kawa::ParsingPhase::Trailers;
         kawa::h1::parse(kawa, parts.context);
+        parts
+            .context
+            .elide_request_trailer_identity(kawa, first_new_block, was_in_trailers);
         if kawa.is_error() {
             match self.position {
                 Position::Client(..) => {
@@ -698,7 +703,13 @@ impl<Front: SocketHandler> ConnectionH1<Front> {
                         // the socket buffer may be empty — all requests were already
                         // read into kawa storage in the first socket_read.
                         if !stream.front.storage.is_empty() {
+                            let first_new_block = stream.front.blocks.len();
                             kawa::h1::parse(&mut stream.front, &mut stream.context);
+                            stream.context.elide_request_trailer_identity(
+                                &mut stream.front,
+                                first_new_block,
+                                false,
+                            );
                             let is_error = stream.front.is_error();
                             let is_main = stream.front.is_main_phase();
                             let malformed = is_main
